@@ -603,6 +603,10 @@ def check_C05(tier):
         ns = list(range(1, 151 if quick else 3000)) + (list(range(151, 1500, 7)) if quick else [])
         for k in ns:
             add(n, "nodes", "stop-sweep", nodes=k, depth=4)
+    # ... the same sweep on an engine that has just searched ANOTHER position (its buffers, tables and results are still there)
+    for n in [x for x in normal[npos + 14:npos + 40] if x["path"]][:(3 if quick else 30)]:
+        for k in list(range(1, 41 if quick else 400)):
+            add(n, "nodes", "stop-sweep-dirty", nodes=k, depth=4, prefill="other")
     # leftovers of earlier searches in the hash table
     for n in normal[npos + 8:npos + (14 if quick else 60)] + roots[1:4]:
         for pre in ("other", "same", "deeper"):
@@ -1306,7 +1310,7 @@ def gate_behaviours(tier):
     return chosen, len(behs), len(covered), len(allf), art
 
 
-GATE_GOALS = 11
+GATE_GOALS = 12
 
 
 def gate_goal_behaviours(tier):
@@ -1586,12 +1590,14 @@ def uci_model(tier):
     return a, optf
 
 
-def handler_sessions(tier, rng):
+def handler_sessions(tier, rng, optfield):
     """Sessions generated by UciHandler.tla (TLC simulation) bound to real games from the ChessGame walks.
     Returns (scripts-without-ids, artefact): each script has steps, the FEN expected at every sync (None = not constrained)."""
     quick = tier == "quick"
     nsess = 60 if quick else 1500
-    cfg = "SPECIFICATION HSpec\nCONSTANTS\n  MaxLines = 44\n  TraceFile = \"none\"\nINVARIANTS HSane\nCHECK_DEADLOCK FALSE\n"
+    optf = [o for o in sorted(optfield) if o not in ("Hash", "Use_Book", "Use_ASP", "Use_MTDf")]
+    rng.shuffle(optf)
+    batches = [optf[i:i + 4] for i in range(0, len(optf), 4)]
 
     def post(run, art):
         with open(os.path.join(art, "sessions.ndjson"), "w") as out:
@@ -1603,9 +1609,15 @@ def handler_sessions(tier, rng):
                         if v != "init":
                             acts.append(json.loads(v))
                 out.write(json.dumps(acts) + "\n")
-    art = vlib.tlc("UciHandler", cfg, workers=1, tag="uci-gen-%s" % tier, keep_out=False, post=post, pre_dirs=["beh"],
-                   args=["-simulate", "file=beh/s,num=%d" % nsess, "-depth", "44", "-seed", str(SEED)])
-    sessions = [json.loads(l) for l in open(os.path.join(art, "sessions.ndjson"))]
+    sessions, arts = [], []
+    for bi, batch in enumerate(batches):
+        cfg = ("SPECIFICATION HSpec\nCONSTANTS\n  MaxLines = 44\n  TraceFile = \"none\"\n  SessOpts = %s\nINVARIANTS HSane\nCHECK_DEADLOCK FALSE\n"
+               % tla_set(batch))
+        art = vlib.tlc("UciHandler", cfg, workers=1, tag="uci-gen-%s-%d" % (tier, bi), keep_out=False, post=post, pre_dirs=["beh"],
+                       args=["-simulate", "file=beh/s,num=%d" % (nsess // len(batches) + 1), "-depth", "44", "-seed", str(SEED + bi)])
+        arts.append(art)
+        sessions += [json.loads(l) for l in open(os.path.join(art, "sessions.ndjson"))]
+    art = arts[0]
     # ---- real games for the abstract ones: prefixes of TLC walks (every prefix is a state of ChessGame, with its FEN and legal moves)
     nodes = sl.load_nodes(shared(tier)["walk"], want=lambda o: len(o["path"]) <= 6)
     by = {(n["rootidx"], tuple(n["path"])): n for n in nodes}
@@ -1637,7 +1649,8 @@ def handler_sessions(tier, rng):
     out = []
     for i, acts in enumerate(sessions):
         fam = families[i % len(families)]
-        steps, expect = [S("uci"), ul.wait("uciok", 3000)], []
+        steps, expect = [S("uci"), ul.wait("uciok", 3000), S("setoption name Print Config"), ul.sync()], [None]
+        prints = [None]          # option snapshots of the specification at every configuration print-out (the first is the baseline)
         cur, cur_node = None, None       # FEN the engine must hold (None after ucinewgame: not part of the property)
         start_node = by[(fam[0][0], ())] if rootfen(fam[0]) == START_FEN else None
 
@@ -1658,7 +1671,11 @@ def handler_sessions(tier, rng):
                 cur, cur_node = None, start_node
                 sync()
             elif c == "setoption":
-                steps.append(S("setoption name %s value %s" % (a["a"][0], "true" if a["a"][1] else "false")))
+                steps.append(S("setoption name %s value %s" % (a["a"][0], a["a"][1])))
+                sync()
+            elif c == "printconfig":
+                steps.append(S("setoption name Print Config"))
+                prints.append(a["a"])
                 sync()
             elif c == "go":
                 kind = a["a"]
@@ -1684,8 +1701,11 @@ def handler_sessions(tier, rng):
         if pend and pend[-1] == "go":
             steps += [S("stop"), ul.wait("bestmove", 8000)]
             sync()
-        out.append({"steps": steps, "expect": expect, "acts": [a["c"] for a in acts]})
-    return out, art
+        steps.append(S("setoption name Print Config"))          # ... and once more at the end of every session
+        prints.append({o_: v_ for a in acts if a["c"] == "setoption" for o_, v_ in [a["a"]]})
+        sync()
+        out.append({"steps": steps, "expect": expect, "acts": [a["c"] for a in acts], "prints": prints})
+    return out, arts
 
 
 
@@ -1751,6 +1771,16 @@ def check_C12(tier):
                            S("ucinewgame"), S(cmd), S("go depth 4"), ul.wait("bestmove", 20000)]
             f = add("newgame-fresh", fresh, pair=i, hash_off=hash_off, fen=fen)
             d = add("newgame-dirty", dirty, pair=i, hash_off=hash_off, fen=fen, fresh=f)
+    # ... and deeper: state that leaks through ucinewgame (killer moves, counters) changes the move ordering first and the result
+    # only where pruning depends on the ordering - depth 8 from the initial position and two roots
+    for i, n in enumerate(([{"root": None}] + roots[1:7]) if quick else ([{"root": None}] + roots[1:12])):
+        cmd, fen = ("position startpos", START_FEN) if n["root"] is None else uci_position_cmd(n)
+        dd = 9 if n["root"] is None else 8
+        pre = [S("uci"), ul.wait("uciok", 3000), ul.sync()]
+        fresh = pre + [S(cmd), S("go depth %d" % dd), ul.wait("bestmove", 120000)]
+        dirty = pre + [S(cmd), S("go depth %d" % dd), ul.wait("bestmove", 120000), S("ucinewgame"), S(cmd), S("go depth %d" % dd), ul.wait("bestmove", 120000)]
+        f = add("newgame-fresh", fresh, pair=1000 + i, hash_off=False, fen=fen)
+        add("newgame-dirty", dirty, pair=1000 + i, hash_off=False, fen=fen, fresh=f)
     # ---- option clause: setoption changes exactly the named field of the configuration print-out
     for name in sorted(optf):
         for val in (["true", "false"] if name != "Hash" else ["32", "1"]):
@@ -1759,11 +1789,12 @@ def check_C12(tier):
                 option=name, value=val)
     # ---- sessions generated from UciHandler.tla: position commands that extend / shorten / repeat / replace one another,
     # mixed with every other command; the handler's position is compared with the specification's after every step
-    hsess, hart = handler_sessions(tier, rng)
-    ck.add_tlc(hart)
+    hsess, harts = handler_sessions(tier, rng, optf)
+    for hart in harts:
+        ck.add_tlc(hart)
     for h in hsess:
-        add("handler", h["steps"], expect=h["expect"], acts=h["acts"])
-    res = ul.run_sessions(scripts)
+        add("handler", h["steps"], expect=h["expect"], acts=h["acts"], prints=h["prints"])
+    res = ul.run_sessions(scripts, timeout=400)
     # wall-clock clauses (answer within a time-out, prompt stop) are confirmed by running the session again, alone,
     # before they count: a loaded machine must not raise an alarm
     def timing_suspect(r):
@@ -1788,7 +1819,7 @@ def check_C12(tier):
         key = "C12|%s|%s" % (kind, sig)
         ck.disc_count[key] = ck.disc_count.get(key, 0) + 1
     traces = {}
-    nfen = 0
+    nfen = nprint = 0
     for sc in scripts:
         sid, r, m = sc["id"], res[sc["id"]], meta[sc["id"]]
         ev = r["events"]
@@ -1812,6 +1843,32 @@ def check_C12(tier):
             if bm and bm[0]["t_ms"] - st_["t_ms"] > 500:
                 disc("stop-not-prompt", "stop-latency", sid, {"ms": bm[0]["t_ms"] - st_["t_ms"]})
         if m["name"] == "handler":
+            # configuration print-outs: every option at the value it was last set to in this session, everything else as at the first one
+            import re as _re
+            cfgs, cur = [], {}
+            for e in ev:
+                if e["ev"] == "out":
+                    mm = _re.match(r"info string\s*\d+\s*:\s*(\w+)\s+\S+\s+=\s*(.*?)\s*$", e.get("line", ""))
+                    if mm:
+                        cur[mm.group(1)] = mm.group(2)
+                    if e.get("line", "").startswith("info string Search Config"):
+                        cfgs.append(cur)
+                        cur = {}
+            if len(cfgs) == len(m["prints"]) and cfgs:
+                base = cfgs[0]
+                for j in range(1, len(cfgs)):
+                    want = dict(base)
+                    for o_, v_ in m["prints"][j].items():
+                        if v_ != "default":
+                            want[optf[o_]] = v_
+                    nprint += 1
+                    bad = sorted(f for f in want if cfgs[j].get(f) != want[f])
+                    if bad:
+                        disc("setoption", "option/session", sid, {"print_out": j, "fields": {f: {"engine": cfgs[j].get(f), "specification": want[f]} for f in bad[:6]},
+                                                                 "options_set": {o_: v_ for o_, v_ in m["prints"][j].items() if v_ != "default"}})
+                        break
+            elif m["prints"]:
+                disc("print-config", "option/no-print-out", sid, {"prints": len(cfgs), "expected": len(m["prints"])})
             traces[sid] = ul.trace_of(ev)
             got = [e.get("line", "") for e in ev if e["ev"] == "fen"]
             if len(got) == len(m["expect"]):
@@ -1905,7 +1962,7 @@ def check_C12(tier):
     ck.cov["evaluations"] = len(scripts)
     ck.cov["distinct_nontrivial"] = len(scripts)
     ck.cov["traces_validated_against_impl"] = nacc
-    ck.cov["counters"] = {"protocol_sessions": nsess, "handler_sessions": len(hsess), "sessions_accepted_by_spec": nacc, "position_fens_compared": nfen,
+    ck.cov["counters"] = {"protocol_sessions": nsess, "handler_sessions": len(hsess), "sessions_accepted_by_spec": nacc, "position_fens_compared": nfen, "session_config_print_outs_compared": nprint,
                           "newgame_pairs": ncmp, "option_sessions": nopt}
     ck.cov["rule"] = ("real UciHandler.Loop sessions over pipes, one child process each: seeded protocol-valid sessions (every go mode, go sent "
                       "immediately after bestmove, isready during search, stop, ponderhit) whose exchanged lines are validated against "
@@ -2067,11 +2124,38 @@ def check_C16(tier):
     return ck.finish()
 
 
+def gob_boundaries(blob):
+    """Offsets at which a gob stream can be cut between two messages (each message is a byte count followed by that many bytes;
+    counts below 128 take one byte, larger ones a negated length byte and the big-endian value)."""
+    out, i = [], 0
+    while i < len(blob):
+        b0 = blob[i]
+        if b0 < 128:
+            n, i = b0, i + 1
+        else:
+            k = 256 - b0
+            if k > 8 or i + 1 + k > len(blob):
+                break
+            n, i = int.from_bytes(blob[i + 1:i + 1 + k], "big"), i + 1 + k
+        i += n
+        if i > len(blob):
+            break
+        out.append(i)
+    return out
+
+
 def book_games(tier):
     n, d = (300, 16) if tier == "quick" else (5000, 40)
     art = vlib.tlc("ChessGame", game_cfg(d, d, ["Move"], ["san"], walks=n, walkseed=SEED),
                    files={"roots.ndjson": roots_ndjson([START_FEN])}, workers=16, tag="bookgames", timeout=4 * 3600)
     nodes, games = bl.load_games(art, d)
+    # ... and games that come home: every game of a second walk starts 1. Nf3 Nf6 2. Ng1 Ng8 and goes on from the initial
+    # position - the root of the book is then reached by moves as well, not only as the start of a line
+    cfg = game_cfg(d + 4, d + 4, ["Move"], ["san"], walks=max(8, n // 15), walkseed=SEED + 77).replace("INIT Init", "INIT PInit")
+    art2 = vlib.tlc("ChessGamePrefix", cfg, files={"roots.ndjson": roots_ndjson([START_FEN])}, workers=8, tag="bookgames-home", timeout=4 * 3600)
+    nodes2, games2 = bl.load_games(art2, d + 4)
+    nodes.update(nodes2)
+    games = games2 + games          # first, so that every sample of the collection contains some
     return art, nodes, games
 
 
@@ -2298,7 +2382,17 @@ def check_C20(tier):
     a = vlib.tlc("BookCache", cfg, workers=4, tag="bookcache-mc", keep_out=False)
     ck.add_tlc(a)
     art, nodes, games = book_games(tier)
-    books = [("small", games[:3])] + ([] if quick else [("large", games[:500])])
+    # a big book (more than 8,192 positions: every path TLC visited around the walks is a legal game prefix) - its cache file
+    # is several gob messages long in formats that write the map in pieces, and is cut at every message boundary below
+    nbig = 1200 if quick else 2500
+    bigart = vlib.tlc("ChessGame", game_cfg(16, 16, ["Move"], ["san"], walks=nbig, walkseed=SEED + 5),
+                      files={"roots.ndjson": roots_ndjson([START_FEN])}, workers=16, tag="bookgames-big", timeout=4 * 3600)
+    ck.add_tlc(bigart)
+    bnodes, big = bl.load_games(bigart, 16)
+    nodes = dict(nodes)
+    nodes.update(bnodes)
+    cnt["big_book_positions"] = len(bnodes)
+    books = [("small", games[:3])] + ([] if quick else [("large", games[:500])]) + [("big", big)]
     nfaults = 0
     for bname, gs in books:
         text = "\n".join(bl.render_san(nodes, g) for g in gs) + "\n"
@@ -2312,21 +2406,44 @@ def check_C20(tier):
             blob = open(os.path.join(run, "book.txt.cache"), "rb").read()
             # round trip: save -> load equals build
             d2, rc, err, _ = bl.book_run(None, "San", cache=True, keep_dir=run)
-            if d2 is None or bl.book_summary(d2) != refsum or bl.book_summary(d1)[0] != refsum[0]:
+            # (which parent carries the link to a transposed position depends on the schedule of the build: the loaded book is
+            # compared in full with the build that wrote the cache, and by positions and counters with the reference build)
+            if d2 is None or d1 is None or bl.book_summary(d2) != bl.book_summary(d1) or bl.book_summary(d1)[0] != refsum[0]:
                 disc("cache-round-trip", "roundtrip/" + bname, {"rc": rc, "stderr": err})
         finally:
             shutil.rmtree(run, ignore_errors=True)
         cnt["cache_bytes_" + bname] = len(blob)
-        faults = [("prefix", n, blob[:n]) for n in (range(len(blob)) if len(blob) <= 4096 else
-                                                     list(range(0, 4096)) + list(range(4096, len(blob), 64)))]
-        for i in range(30 if quick else 500):
+        # crash points of the save: every prefix length of a small file; for larger ones the first bytes, a stride, and - the
+        # places where a writer that works in pieces stops - the boundaries of the gob messages the file consists of
+        bounds = gob_boundaries(blob)
+        cnt["gob_messages_" + bname] = len(bounds)
+        if len(blob) <= 4096:
+            cuts = list(range(len(blob)))
+        elif bname == "big":
+            cuts = sorted(set(list(range(0, 64)) + list(range(64, len(blob), max(4096, len(blob) // 40)))
+                              + [b_ + d_ for b_ in bounds for d_ in (-1, 0, 1) if 0 <= b_ + d_ < len(blob)]))
+        else:
+            cuts = sorted(set(list(range(0, 4096)) + list(range(4096, len(blob), 64)) + [b_ for b_ in bounds if b_ < len(blob)]))
+        faults = [("prefix", n, blob[:n]) for n in cuts]
+        if bname == "big":
+            # the order in which a map is written differs from save to save: two more saves of the same book, cut at their
+            # message boundaries (which entries a piece holds decides what a reader of the cut file can notice)
+            for extra in range(2):
+                run2 = vlib.scratch("cache")
+                try:
+                    bl.book_run(text, "San", cache=True, keep_dir=run2)
+                    blob2 = open(os.path.join(run2, "book.txt.cache"), "rb").read()
+                finally:
+                    shutil.rmtree(run2, ignore_errors=True)
+                faults += [("prefix", 1000000 * (extra + 1) + b_, blob2[:b_]) for b_ in gob_boundaries(blob2) if b_ < len(blob2)]
+        for i in range(0 if bname == "big" else 30 if quick else 500):
             b = bytearray(blob)
             for _ in range(rng.randint(1, 4)):
                 b[rng.randrange(len(b))] ^= 1 << rng.randrange(8)
             faults.append(("bitflip", i, bytes(b)))
         # single bytes inverted, spread over the whole file (damage inside the value part of the gob stream makes the decoder
         # fail AFTER it has delivered some entries)
-        for i in range(3, len(blob), max(1, len(blob) // (150 if quick else 1200))):
+        for i in range(3, len(blob), max(1, len(blob) // (12 if bname == "big" else 150 if quick else 1200))):
             b = bytearray(blob)
             b[i] ^= 0xFF
             faults.append(("invert", i, bytes(b)))
